@@ -5,9 +5,14 @@ from toposort import toposort_flatten
 
 from xsdata.codegen.exceptions import CodegenError
 from xsdata.codegen.models import Class, Import, get_slug
-from xsdata.utils import collections
+from xsdata.utils import collections, text
 
 logger = logging.getLogger(__name__)
+
+
+def get_alias_slug(imp: Import) -> str:
+    """Return the ascii alphanumerical characters of the alias in lower case."""
+    return text.alnum(imp.alias or "")
 
 
 class DependenciesResolver:
@@ -132,6 +137,13 @@ class DependenciesResolver:
                     add = "_".join(parts)
 
                 cur.alias = f"{add}:{cur.name}"
+
+            # Words that differ only in case or punctuation, e.g. a.Beta and b.beta
+            for items in collections.group_by(group, key=get_alias_slug).values():
+                if len(items) > 1:
+                    for imp in items:
+                        parts = re.split("[_.]", imp.source)
+                        imp.alias = f"{'_'.join(parts)}:{imp.name}"
 
     def get_class_module(self, qname: str) -> str:
         """Return the module for the given qualified class name.
